@@ -1392,6 +1392,23 @@ def run(rep, tier):
     if not (ws_ok and pats_ok) and not any(not v["no_input"] for v in rep.violations):
         rep.broken("source:errors.py-patterns", "the regular expressions of typedpy/errors.py (or the \\s class of `re`) are no longer "
                    "those transcribed in Errors/Parse.v; no clause of C18 failed on any explored input")
+    # the regex semantics itself (Errors/Regex.v, on which the C18_src_* theorems stand) against CPython's `re`:
+    # the four patterns of errors.py as the source spells them NOW plus patterns exercising every AST node kind
+    if model_ok:
+        try:
+            from harness import regexcorr
+            n_rx, mm = regexcorr.run_regex_corr(rnd, 600 if tier == "quick" else 4000)
+            rep.cov["streams"]["regex-semantics"] = {"evaluations": n_rx, "mismatches": len(mm)}
+            rep.count("regex-semantics", n_rx, None)
+            rep.obligation("correspondence:regex-semantics(Errors/Regex.v vs CPython re)", not mm,
+                           "%d (pattern, subject) pairs, %d mismatches" % (n_rx, len(mm)))
+            if mm and not any(not v["no_input"] for v in rep.violations):
+                rep.broken("correspondence:regex-semantics", "the regex matcher of Errors/Regex.v and CPython's re differ",
+                           {"first": mm[0]})
+        except Exception as ex:  # noqa  (an untranslatable pattern is already reported through the build of RegexProofs)
+            rep.obligation("correspondence:regex-semantics(Errors/Regex.v vs CPython re)", False, "not run: %r" % (ex,))
+            if proofs_ok:
+                rep.broken("correspondence:regex-semantics", "stream could not run: %r" % (ex,))
     if not proofs_ok:
         from harness.props.c17 import broken_build
         broken_build(rep)
